@@ -13,6 +13,7 @@ import pjrpc
 from pjrpc.common import UNSET
 from pjrpc.common.exceptions import DeserializationError, IdentityError, JsonRpcError
 
+from pbt import errors as he   # registers the harness' error classes once, at import; holds the harness' model of the registry
 from pbt import jsongen as jg
 from pbt import wellformed as wf
 from pbt.runner import Check, Disc, Outcome
@@ -46,7 +47,7 @@ def deviates(kind: str, v: Any) -> bool:
 
 
 def typed_default(code: int):
-    return JsonRpcError.get_error_cls(code, JsonRpcError)
+    return he.expected_class(code)
 
 
 class C06(Check):
